@@ -553,6 +553,14 @@ class SymNumpy:
             return _np.repeat(a, repeats, axis=axis)
         raise Unsupported("np.repeat")
 
+    def mean(self, x, *a, **k):
+        # defined (rather than left to __getattr__) so that `func == np.mean` in an __array_function__ dispatch compares equal
+        if not any_symbolic((x,) + a, k):
+            return _np.mean(x, *a, **k)
+        if hasattr(x, "__array_function__") and not isinstance(x, SymArr):
+            return x.__array_function__(self.mean, (type(x),), (x,) + a, k)
+        raise Unsupported("numpy.mean of a symbolic array (float arithmetic)")
+
     def issubdtype(self, a, b):
         if isinstance(a, (SymArr, SInt, SBool, SElem)):
             a = a.dtype
